@@ -46,7 +46,9 @@ DV(k, n) ==
                                            asp |-> "post", fields |-> << PlainF("y", P("int32"), 1) >>]] >>]
     [] k = 6 -> [k |-> "enum", name |-> Nm("Ea", n), base |-> "", flags |-> FALSE, doc |-> NoDoc,
                  members |-> << [name |-> "A", lit |-> <<"1">>, val |-> <<1, 0, 0, 0>>, dep |-> "", doc |-> NoDoc],
-                                [name |-> "B", lit |-> <<"2">>, val |-> <<2, 0, 0, 0>>, dep |-> "", doc |-> NoDoc] >>]
+                                [name |-> "B", lit |-> <<"2">>, val |-> <<2, 0, 0, 0>>, dep |-> "", doc |-> NoDoc],
+                                [name |-> "C", lit |-> <<"010">>, val |-> <<8, 0, 0, 0>>, dep |-> "", doc |-> NoDoc],      \* a leading 0: octal
+                                [name |-> "D", lit |-> <<"0x1F">>, val |-> <<31, 0, 0, 0>>, dep |-> "", doc |-> NoDoc] >>]
     [] k = 7 -> [k |-> "enum", name |-> Nm("Eb", n), base |-> "int64", flags |-> FALSE, doc |-> LineDoc(" typed"),
                  members |-> << [name |-> "A", lit |-> <<"-1">>, val |-> FF(8), dep |-> "", doc |-> NoDoc],
                                 [name |-> "B", lit |-> <<"0x10">>, val |-> <<16>> \o Z(7), dep |-> "gone", doc |-> NoDoc] >>]
@@ -84,7 +86,7 @@ SeqItems(i) == LET ks == SeqOfIndex(NVariants, i - 1, 1) IN [j \in 1..Len(ks) |-
 
 -----------------------------------------------------------------------------
 (* field variants inside each kind of container *)
-NFieldVariants == 8
+NFieldVariants == 9
 FV(k, j, idx) ==   \* j-th field of the container; idx used by messages
   LET nm == Nm("f", j) IN
   CASE k = 1 -> PlainF(nm, P("int32"), idx)
@@ -95,6 +97,7 @@ FV(k, j, idx) ==   \* j-th field of the container; idx used by messages
     [] k = 6 -> Fd(nm, P("guid"), idx, "", NoDoc, <<>>, " trailing remark")
     [] k = 7 -> Fd(nm, M("uint32", P("date")), idx, "both", LineDoc(" line one") \o LineDoc(" line two"), <<>>, "")
     [] k = 8 -> Fd(nm, P("float64"), idx, "", BlockDoc(" first paragraph\n\n   second paragraph after an empty line\n "), <<>>, "")
+    [] k = 9 -> PlainF(nm, P("int16"), idx) @@ ("idxlit" :> ("0" \o ToString(idx)))   \* message indices are decimal: 010 is ten
 
 MaxItems == IF Tier = "thorough" THEN 3 ELSE 2
 NItemSeqs == NSeqs(NFieldVariants, MaxItems)
@@ -102,7 +105,7 @@ Containers == <<"struct", "message", "union", "enum">>
 
 EnumMember(k, j) ==
   LET f == FV(k, j, j) IN
-  [name |-> Nm("O", j), lit |-> <<ToString(j)>>, val |-> <<j, 0, 0, 0>>, dep |-> f.dep,
+  [name |-> Nm("O", j), lit |-> <<(IF k = 9 THEN "0" ELSE "") \o ToString(j)>>, val |-> <<j, 0, 0, 0>>, dep |-> f.dep,
    doc |-> f.doc]
 
 ItemsCase(i) ==   \* i in 1..4*NItemSeqs
